@@ -202,20 +202,22 @@ def run(ctx):
                                   max_findings=100000)
     ctx.cov["traces_validated_against_impl"] += 1
     ctx.cov["events"] = n
-    by_kind = {}
+    by_kind, expect = {}, []
     for ln in lines:
         e = json.loads(ln)
         if e["ev"] == "construct":   # coverage expectations (DESIGN section 4): exit 2, never a verdict
             if e["kind"].startswith("unit:"):
-                raise vlib.Infra("the library refused a configuration the plan expects to be usable (model out of date): %s" % ln[:600])
+                expect.append("the library refused a configuration the plan expects to be usable (model out of date): %s" % ln[:600])
             if e["kind"].startswith("refused:") and not e["err"]:
-                raise vlib.Infra("the library accepted a configuration the plan expects to be refused (model out of date): %s" % ln[:600])
+                expect.append("the library accepted a configuration the plan expects to be refused (model out of date): %s" % ln[:600])
         k = "%s %s %s" % (e["alg"], e["ev"], e.get("origin", ""))
         by_kind[k] = by_kind.get(k, 0) + 1
     ctx.stage("T:" + TRACE, by_kind=by_kind)
     for k in (7, len(lines) // 3, len(lines) // 2, len(lines) - 3):
         ctx.sample(json.loads(lines[k]))
     report(ctx, mism)
+    if expect and not ctx.violations:
+        raise vlib.Infra(expect[0])
     if not ctx.violations:
         # negative control on the events that conform (known findings, if any, are left out of the window)
         badl = set(json.dumps(m["event"], sort_keys=True) for m in mism)
